@@ -44,6 +44,7 @@ import (
 	"github.com/gotid/god/lib/store/redis"
 	"github.com/gotid/god/lib/store/sqlc"
 	"github.com/gotid/god/lib/store/sqlx"
+	"github.com/gotid/god/lib/syncx"
 	"pgregory.net/rapid"
 	"verif.local/kit"
 )
@@ -69,7 +70,7 @@ const (
 )
 
 type hOp struct {
-	K      string   `json:"k"`            // read readidx write delrow delcache setcache adv conc fault
+	K      string   `json:"k"`            // read readidx write delrow delcache setcache getcache adv conc cwrite fault
 	ID     int      `json:"id,omitempty"` // primary key
 	Idx    int      `json:"ix,omitempty"` // unique index value
 	During bool     `json:"du,omitempty"` // write/delrow: a cached read of the row inside the exec callback, before the DB changes
@@ -88,8 +89,25 @@ type hOp struct {
 	Lat    int      `json:"la,omitempty"` // conc: virtual duration of the DB callback, ms
 	ViaIdx bool     `json:"vi,omitempty"` // conc: readers use QueryRowIndex
 	Node   int      `json:"n,omitempty"`  // fault: node
-	Mode   string   `json:"m,omitempty"`  // fault: "" down get set del
+	Mode   string   `json:"m,omitempty"`  // fault: "" down get set del (error replies); rstdown rstget rstset rstdel (the connection is closed without a reply, every attempt); rst1down rst1get rst1set rst1del (the same for ONE command: the client's re-send goes through)
 	Filt   string   `json:"f,omitempty"`  // fault: "" p i (key class the fault applies to)
+	XF     bool     `json:"xf,omitempty"` // write: the database statement fails (the Exec callback returns an error, the database is unchanged)
+	Bad    bool     `json:"bad,omitempty"` // setcache: a value that JSON cannot encode (+Inf): unspecified, run for panics only
+	Ws     []hW     `json:"ws,omitempty"` // cwrite: writers running at the same time (no reader runs meanwhile)
+}
+
+// hW is one of the concurrent writers of a cwrite step: an update of row ID
+// (keeping its index value) through Exec on instance In, whose database
+// statement starts Off ms into the step and takes Lat ms; DelOnly: a bare
+// DelCache of the row's keys instead.
+type hW struct {
+	ID      int  `json:"id"`
+	In      int  `json:"in,omitempty"`
+	Off     int  `json:"of,omitempty"`
+	Lat     int  `json:"la,omitempty"`
+	NoIdx   bool `json:"ni,omitempty"`
+	DelOnly bool `json:"do,omitempty"`
+	Pay     int  `json:"py,omitempty"`
 }
 
 // hInst: the options one CachedConn is created with. An option that is not
@@ -102,6 +120,7 @@ type hInst struct {
 	NF    int   `json:"nf,omitempty"`   // seconds
 	NFNs  int64 `json:"nfns,omitempty"` // same for the not-found expiry
 	Share bool  `json:"sh,omitempty"`   // created over the SAME *redis.Redis object as the previous instance (NewNodeConn constructors)
+	Direct bool `json:"di,omitempty"`   // built by the caller from cache.New / cache.NewNode (own single-flight group) and sqlc.NewConnWithCache; calls without a context go to the cache.Cache methods directly (Take, TakeWithExpire, SetWithExpire, Set, Get, Del, IsNotFound) as a cache-aside caller of that interface would use them
 }
 
 const c06HundredYears = int64(100*365.25*24*3600) * 1e9
@@ -139,7 +158,7 @@ func (i hInst) duration(ns int64, secs int) time.Duration {
 type hCase struct {
 	Insts []hInst `json:"insts,omitempty"` // 1..3 connections created in this order over the same nodes (default: one with e / nfe)
 	Weights []int  `json:"w"`    // one entry per node (1..3)
-	Ctor    string `json:"ctor"` // node | conf (single node through NewNodeConn or NewConn)
+	Ctor    string `json:"ctor"` // node | conf (single node through NewNodeConn or NewConn) | ctype (cluster-type redis: one node through NewNodeConn, several through NewConn with Type=cluster entries) | cconf (cluster-type redis, always through NewConn)
 	Expire  int    `json:"e"`    // seconds
 	NFExp   int    `json:"nfe"`  // seconds
 	PKKind  string   `json:"pkk,omitempty"` // "" / int: int64 primary keys (PKs), str: string primary keys (SPKs)
@@ -150,6 +169,9 @@ type hCase struct {
 	OffMs   int    `json:"off"`  // operations happen OffMs after a tick of the clean wheel
 	Ops     []hOp  `json:"ops"`
 }
+
+// clusterType: the redis nodes are of cluster type (go-redis ClusterClient).
+func (c hCase) clusterType() bool { return c.Ctor == "ctype" || c.Ctor == "cconf" }
 
 // hRow is what the "database" stores and what every read must return EXACTLY,
 // whether it comes from the callback, from the cache or from another
@@ -228,6 +250,7 @@ type hRun struct {
 	c    hCase
 	srvs []*cache.C06Srv
 	ccs  []sqlc.CachedConn
+	direct []cache.Cache // per instance: the cache.Cache the caller built itself (nil: the instance came from sqlc.NewConn / NewNodeConn)
 	cur  int // instance performing the running operation
 	idxNames []string
 	db   map[int]hRow
@@ -467,8 +490,23 @@ func (r *hRun) indexQuery(idx int, v any) (any, error) {
 	return r.pkValue(row.ID), nil
 }
 
+// notFoundAgrees: the cache's own predicate for "not found" must agree with
+// what the read returned (used on instances whose cache.Cache the caller holds).
+func (r *hRun) notFoundAgrees(c cache.Cache, err error) {
+	if got := c.IsNotFound(err); got != (err == sqlc.ErrNotFound) {
+		r.mu.Lock()
+		r.failf("IsNotFound(%v) = %v on the cache that returned this error", err, got)
+		r.mu.Unlock()
+	}
+}
+
 func (r *hRun) queryRow(id int) (hRow, error) {
 	var row hRow
+	if c := r.direct[r.cur]; c != nil && r.ctx == nil {
+		err := c.Take(&row, r.pkey(id), func(v any) error { return r.primaryQuery(id, v) })
+		r.notFoundAgrees(c, err)
+		return row, err
+	}
 	if ctx := r.ctx; ctx != nil {
 		return row, r.ccs[r.cur].QueryRowCtx(ctx, &row, r.pkey(id), func(_ context.Context, _ sqlx.Conn, v any) error { return r.primaryQuery(id, v) })
 	}
@@ -478,6 +516,28 @@ func (r *hRun) queryRow(id int) (hRow, error) {
 
 func (r *hRun) queryRowIndex(idx int) (hRow, error) {
 	var row hRow
+	if c := r.direct[r.cur]; c != nil && r.ctx == nil {
+		// index -> primary key -> row, written against the cache.Cache interface
+		// (non-Ctx methods) the way a cache-aside caller of that interface does
+		keyer := func(primary any) string { return fmt.Sprintf("p%d:%v", r.c.Salt, primary) }
+		var primary any
+		found := false
+		err := c.TakeWithExpire(&primary, r.ikey(idx), func(_ any, expire time.Duration) error {
+			pk, err := r.indexQuery(idx, &row)
+			if err != nil {
+				return err
+			}
+			primary, found = pk, true
+			return c.SetWithExpire(keyer(pk), &row, expire+5*time.Second)
+		})
+		r.notFoundAgrees(c, err)
+		if err != nil || found {
+			return row, err
+		}
+		err = c.Take(&row, keyer(primary), func(v any) error { return r.primaryQuery(r.slotOf(fmt.Sprint(primary)), v) })
+		r.notFoundAgrees(c, err)
+		return row, err
+	}
 	if ctx := r.ctx; ctx != nil {
 		return row, r.ccs[r.cur].QueryRowIndexCtx(ctx, &row, r.ikey(idx),
 			func(primary any) string { return fmt.Sprintf("p%d:%v", r.c.Salt, primary) },
@@ -501,6 +561,45 @@ type hBatch struct {
 	sets      int
 }
 
+// c06Collapse turns the ATTEMPTS the server cut off by closing the connection
+// into the outcome of the client's calls: the client re-sends a command up to 3
+// times, so per command (name, keys, value) within one batch either a re-send
+// got through (fewer than 4 cut-off attempts and an executed one: the call
+// succeeded, the cut-off attempts vanish) or every attempt was cut off (one
+// failed call per started group of 4 attempts; fewer when the caller's context
+// ended the re-sending early).
+func c06Collapse(l []cache.C06Cmd) (out []cache.C06Cmd, resets int) {
+	id := func(e cache.C06Cmd) string { return e.Cmd + "\x00" + strings.Join(e.Keys, "\x00") + "\x00" + e.Val }
+	cut, done := map[string]int{}, map[string]int{}
+	for _, e := range l {
+		if e.Reset {
+			cut[id(e)]++
+			resets++
+		} else {
+			done[id(e)]++
+		}
+	}
+	if resets == 0 {
+		return l, 0
+	}
+	seen := map[string]int{}
+	for _, e := range l {
+		if !e.Reset {
+			out = append(out, e)
+			continue
+		}
+		k := id(e)
+		if done[k] > 0 && cut[k] < 4 {
+			continue // its re-send was executed
+		}
+		seen[k]++
+		if seen[k]%4 == 0 || seen[k] == cut[k] {
+			out = append(out, e) // Failed is set: the call failed
+		}
+	}
+	return out, resets
+}
+
 // absorb reads the command logs, checks TTLs and placement, and updates the
 // model of what the servers hold. fromIndexRead: the commands belong to a
 // QueryRowIndex (its primary row may carry the +5 s gap). background: no
@@ -508,7 +607,14 @@ type hBatch struct {
 func (r *hRun) absorb(fromIndexRead, background bool) (b hBatch, dels []string) {
 	b.getFailed = map[string]bool{}
 	for si, s := range r.srvs {
-		for _, e := range s.Take() {
+		entries, resets := c06Collapse(s.Take())
+		if resets > 0 {
+			r.classes["connection-reset-attempts"] = true
+		}
+		for _, e := range entries {
+			if e.Reset {
+				r.classes["call-failed-by-connection-resets"] = true
+			}
 			for _, k := range e.Keys {
 				if n, ok := r.keyNode[k]; ok && n != si {
 					r.failf("placement: key %q served by node %d and by node %d", k, n, si)
@@ -913,6 +1019,56 @@ func (r *hRun) markInvalidated(keys []string) {
 	}
 }
 
+// exec runs a write on instance inst: the database statement, then the removal
+// of the named keys - through CachedConn.Exec / ExecCtx, or, on an instance whose
+// cache.Cache the caller holds and without a context, statement then Cache.Del.
+func (r *hRun) exec(inst int, ctx context.Context, body func(sqlx.Conn) (sql.Result, error), keys ...string) error {
+	if c := r.direct[inst]; c != nil && ctx == nil {
+		if _, err := body(nil); err != nil {
+			return err
+		}
+		return c.Del(keys...)
+	}
+	if ctx != nil {
+		_, err := r.ccs[inst].ExecCtx(ctx, func(_ context.Context, conn sqlx.Conn) (sql.Result, error) { return body(conn) }, keys...)
+		return err
+	}
+	_, err := r.ccs[inst].Exec(body, keys...)
+	return err
+}
+
+func (r *hRun) delCache(keys ...string) error {
+	if c := r.direct[r.cur]; c != nil && r.ctx == nil {
+		return c.Del(keys...)
+	}
+	if ctx := r.ctx; ctx != nil {
+		return r.ccs[r.cur].DelCacheCtx(ctx, keys...)
+	}
+	return r.ccs[r.cur].DelCache(keys...)
+}
+
+func (r *hRun) setCache(key string, val any) error {
+	if c := r.direct[r.cur]; c != nil && r.ctx == nil {
+		return c.Set(key, val)
+	}
+	if ctx := r.ctx; ctx != nil {
+		return r.ccs[r.cur].SetCacheCtx(ctx, key, val)
+	}
+	return r.ccs[r.cur].SetCache(key, val)
+}
+
+func (r *hRun) getCache(key string, v any) error {
+	if c := r.direct[r.cur]; c != nil && r.ctx == nil {
+		err := c.Get(key, v)
+		r.notFoundAgrees(c, err)
+		return err
+	}
+	if ctx := r.ctx; ctx != nil {
+		return r.ccs[r.cur].GetCacheCtx(ctx, key, v)
+	}
+	return r.ccs[r.cur].GetCache(key, v)
+}
+
 func (r *hRun) doWrite(what string, o hOp, del bool) {
 	old, existed := r.db[o.ID]
 	var keys []string
@@ -941,6 +1097,19 @@ func (r *hRun) doWrite(what string, o hOp, del bool) {
 			keys = append(keys, r.ikey(o.Idx))
 			r.classes["update"] = true
 		}
+	}
+	if o.XF {
+		// the database statement fails: nothing changes, Exec must hand the
+		// error back; whether the cache is touched is not specified (whatever
+		// is sent is absorbed), later reads must still be coherent
+		r.classes["write-statement-fails"] = true
+		want := errC06DB{"c06 statement failure"}
+		err := r.exec(r.cur, r.ctx, func(sqlx.Conn) (sql.Result, error) { return nil, want }, keys...)
+		r.absorb(false, false)
+		if err != want {
+			r.failf("%s: the database statement failed with %q, Exec returned %v", what, want.msg, err)
+		}
+		return
 	}
 	r.markInvalidated(keys)
 	body := func(_ sqlx.Conn) (sql.Result, error) {
@@ -977,12 +1146,7 @@ func (r *hRun) doWrite(what string, o hOp, del bool) {
 		r.mu.Unlock()
 		return nil, nil
 	}
-	var err error
-	if ctx := r.ctx; ctx != nil {
-		_, err = r.ccs[r.cur].ExecCtx(ctx, func(_ context.Context, conn sqlx.Conn) (sql.Result, error) { return body(conn) }, keys...)
-	} else {
-		_, err = r.ccs[r.cur].Exec(body, keys...)
-	}
+	err := r.exec(r.cur, r.ctx, body, keys...)
 	b, dels := r.absorb(false, false)
 	if err != nil {
 		r.failf("%s: Exec returned %v", what, err)
@@ -1004,7 +1168,7 @@ func (r *hRun) clientDelFailed(keys []string) {
 		return
 	}
 	groups := [][]string{keys}
-	if r.c.Ctor == "ctype" && len(keys) > 1 {
+	if r.c.clusterType() && len(keys) > 1 {
 		groups = nil
 		for _, k := range keys {
 			groups = append(groups, []string{k})
@@ -1106,12 +1270,7 @@ func (r *hRun) doDelCache(what string, o hOp) {
 			r.classes[fmt.Sprintf("delcache-%d-keys", len(keys)/100*100)] = true
 		}
 	}
-	var err error
-	if ctx := r.ctx; ctx != nil {
-		err = r.ccs[r.cur].DelCacheCtx(ctx, keys...)
-	} else {
-		err = r.ccs[r.cur].DelCache(keys...)
-	}
+	err := r.delCache(keys...)
 	b, dels := r.absorb(false, false)
 	if err != nil {
 		r.failf("%s: DelCache returned %v", what, err)
@@ -1129,6 +1288,14 @@ func (r *hRun) doDelCache(what string, o hOp) {
 }
 
 func (r *hRun) doSetCache(what string, o hOp) {
+	if o.Bad {
+		// UNSPECIFIED: a value JSON cannot encode. Run for panics / hangs only;
+		// whatever is sent is absorbed (and a SET would be judged like any other).
+		r.classes["setcache-unencodable-value"] = true
+		_ = r.setCache(fmt.Sprintf("p%d:~bad", r.c.Salt), math.Inf(1))
+		r.absorb(false, false)
+		return
+	}
 	// only values that agree with the database are written (anything else is
 	// an incoherent write by the caller, outside the statement)
 	for _, k := range o.Keys {
@@ -1146,22 +1313,14 @@ func (r *hRun) doSetCache(what string, o hOp) {
 				r.classes["skipped"] = true
 				continue
 			}
-			if ctx := r.ctx; ctx != nil {
-				err = r.ccs[r.cur].SetCacheCtx(ctx, r.pkey(row.ID), row)
-			} else {
-				err = r.ccs[r.cur].SetCache(r.pkey(row.ID), row)
-			}
+			err = r.setCache(r.pkey(row.ID), row)
 		case 'i':
 			row, ok := r.rowByIdx(n % c06NIdx)
 			if !ok {
 				r.classes["skipped"] = true
 				continue
 			}
-			if ctx := r.ctx; ctx != nil {
-				err = r.ccs[r.cur].SetCacheCtx(ctx, r.ikey(row.Idx), r.pkValue(row.ID))
-			} else {
-				err = r.ccs[r.cur].SetCache(r.ikey(row.Idx), r.pkValue(row.ID))
-			}
+			err = r.setCache(r.ikey(row.Idx), r.pkValue(row.ID))
 		default:
 			continue
 		}
@@ -1170,6 +1329,177 @@ func (r *hRun) doSetCache(what string, o hOp) {
 		if err != nil && !b.setFailed && !r.ctxPre {
 			r.failf("%s: SetCache returned %v", what, err)
 		}
+	}
+}
+
+// doGetCache: GetCache never reaches the database, so the statement determines
+// only this much: a cache failure other than a miss is returned as such, and a
+// VALUE handed out must be the database's current one (never older than the
+// last completed write) unless a failed removal of the key is still pending.
+func (r *hRun) doGetCache(what string, o hOp) {
+	for _, k := range o.Keys {
+		var n int
+		if len(k) < 2 {
+			continue
+		}
+		fmt.Sscanf(k[1:], "%d", &n)
+		r.budget(func(int) int { return 1 })
+		r.resetCalls()
+		var key string
+		var err error
+		var row hRow
+		var pk any
+		switch k[0] {
+		case 'p':
+			key = r.pkey(n % c06NIDs)
+			err = r.getCache(key, &row)
+		case 'i':
+			key = r.ikey(n % c06NIdx)
+			err = r.getCache(key, &pk)
+		default:
+			continue
+		}
+		wasDirty := r.dirty[key]
+		r.inRead = true
+		b, _ := r.absorb(false, false)
+		r.inRead = false
+		r.classes["getcache"] = true
+		total := 0
+		for _, c := range r.priCalls {
+			total += c
+		}
+		for _, c := range r.idxCalls {
+			total += c
+		}
+		if total != 0 {
+			r.failf("%s: GetCache(%s) reached the database", what, key)
+		}
+		switch {
+		case r.ctxPre:
+			if !isCacheErr(err) {
+				r.failf("%s: the context was cancelled before the call, GetCache(%s) returned %v", what, key, err)
+			}
+		case b.getFailed[key]:
+			r.classes["getcache-get-fault"] = true
+			if !isCacheErr(err) {
+				r.failf("%s: GET %s failed with a redis error, GetCache returned %v instead of that error", what, key, err)
+			}
+		case isCacheErr(err):
+			r.failf("%s: GetCache(%s): unexpected error %v (no cache fault was injected)", what, key, err)
+		case err == nil && !wasDirty:
+			r.classes["getcache-value"] = true
+			if k[0] == 'p' {
+				if want, exists := r.db[n%c06NIDs]; !exists || row != want {
+					r.failf("%s: GetCache(%s) handed out %+v, the database holds %+v (exists: %v) (stale value)", what, key, row, want, exists)
+				}
+			} else {
+				want, exists := r.rowByIdx(n % c06NIdx)
+				if !exists || fmt.Sprint(pk) != r.pkText(want.ID) {
+					r.failf("%s: GetCache(%s) handed out primary key %v, the database holds %q (exists: %v) (stale value)", what, key, pk, r.pkText(want.ID), exists)
+				}
+			}
+		}
+	}
+}
+
+// doCWrite: several writers at the same time - updates of (possibly the same)
+// rows through Exec on (possibly different) instances, or bare DelCache calls -
+// while NO read runs. When all have returned every one of them is a completed
+// write: none of the named keys may still be cached, and the reads that follow
+// must return the database's current rows.
+func (r *hRun) doCWrite(what string, o hOp) {
+	for _, s := range r.srvs {
+		if s.Fault() != "" {
+			r.classes["cwrite-skipped"] = true
+			return
+		}
+	}
+	if r.anyTaskAlive() || len(o.Ws) == 0 {
+		r.classes["cwrite-skipped"] = true
+		return
+	}
+	t0 := time.Now()
+	var all []string
+	type job struct {
+		w    hW
+		keys []string
+	}
+	var jobs []job
+	rowsHit := map[int]int{}
+	for _, w := range o.Ws {
+		w.ID = ((w.ID % c06NIDs) + c06NIDs) % c06NIDs
+		old, ok := r.db[w.ID]
+		if !ok {
+			continue
+		}
+		keys := []string{r.pkey(w.ID)}
+		if !w.NoIdx || w.DelOnly {
+			keys = append(keys, r.ikey(old.Idx))
+		}
+		jobs = append(jobs, job{w, keys})
+		all = append(all, keys...)
+		rowsHit[w.ID]++
+	}
+	if len(jobs) < 2 {
+		r.classes["cwrite-skipped"] = true
+		return
+	}
+	r.markInvalidated(all)
+	errs := make([]error, len(jobs))
+	var wg sync.WaitGroup
+	for i, j := range jobs {
+		i, j := i, j
+		inst := 0
+		if j.w.In > 0 {
+			inst = j.w.In % len(r.ccs)
+		}
+		wg.Add(1)
+		go func() {
+			defer wg.Done()
+			time.Sleep(time.Duration(j.w.Off%450) * time.Millisecond)
+			if j.w.DelOnly {
+				if c := r.direct[inst]; c != nil {
+					errs[i] = c.Del(j.keys...)
+				} else {
+					errs[i] = r.ccs[inst].DelCache(j.keys...)
+				}
+				return
+			}
+			errs[i] = r.exec(inst, nil, func(sqlx.Conn) (sql.Result, error) {
+				time.Sleep(time.Duration(j.w.Lat%400) * time.Millisecond) // the statement takes a while
+				r.mu.Lock()
+				defer r.mu.Unlock()
+				old := r.db[j.w.ID]
+				r.ver++
+				row := hRow{ID: j.w.ID, PK: old.PK, SPK: old.SPK, Idx: old.Idx, Val: r.ver}
+				c06Payload(&row, j.w.Pay)
+				r.db[j.w.ID] = row
+				return nil, nil
+			}, j.keys...)
+		}()
+	}
+	wg.Wait()
+	b, _ := r.absorb(false, false)
+	for i, err := range errs {
+		if err != nil {
+			r.failf("%s: writer %d returned %v", what, i, err)
+		}
+	}
+	if !b.delFailed {
+		r.namedKeysGone(what+" (all writers returned)", all)
+	}
+	r.classes["concurrent-writers"] = true
+	for _, n := range rowsHit {
+		if n >= 2 {
+			r.classes["concurrent-writers-same-row"] = true
+		}
+	}
+	// keep the operations aligned: the whole step takes exactly one second
+	time.Sleep(time.Until(t0.Add(time.Second)))
+	kit.Wait()
+	r.serverNow++
+	for _, s := range r.srvs {
+		s.M.FastForward(time.Second)
 	}
 }
 
@@ -1216,7 +1546,31 @@ func (r *hRun) anyTaskAlive() bool {
 }
 
 // doAdv lets d seconds pass on the virtual clock (clean wheel) and on the servers.
-func (r *hRun) doAdv(what string, d int) {
+func (r *hRun) doAdv(what string, d int) { r.doAdvBy(what, d, 0) }
+
+// realign: an operation that made the redis client back off between re-sends
+// (or whose statement slept) has moved on the virtual clock; operations are
+// meant to happen OffMs after a tick of the clean wheel, so the rest of the
+// second is spent as an ordinary advance to the next such instant.
+func (r *hRun) realign(what string) {
+	pos := time.Since(r.start) % time.Second
+	base := time.Duration(r.c.OffMs)*time.Millisecond + 500*time.Microsecond
+	if pos == base {
+		return
+	}
+	r.classes["realigned"] = true
+	if pos < base {
+		// the operation itself ran past a tick: no further tick until the instant wanted
+		time.Sleep(base - pos)
+		kit.Wait()
+		return
+	}
+	less := pos - base
+	r.doAdvBy(what+" (rest of the second)", 1, less)
+}
+
+// doAdvBy: as doAdv, but the virtual sleep is shorter by less (< 1 s).
+func (r *hRun) doAdvBy(what string, d int, less time.Duration) {
 	if d <= 0 {
 		return
 	}
@@ -1231,7 +1585,7 @@ func (r *hRun) doAdv(what string, d int) {
 	}
 	wantF, _ := stepTasks(r.tasksF, to, r.srvs, false, true)
 	wantI, _ := stepTasks(r.tasksI, to, r.srvs, true, true)
-	time.Sleep(time.Duration(d) * time.Second)
+	time.Sleep(time.Duration(d)*time.Second - less)
 	kit.Wait()
 	_, got := r.absorb(false, true)
 	sort.Strings(got)
@@ -1449,6 +1803,26 @@ func c06HistInterp(t *testing.T, c hCase) (v kit.Verdict) {
 	if n < 1 || n > len(cache.C06Srvs) || len(c.Insts) > 3 {
 		return kit.Verdict{Excluded: true}
 	}
+	// a node may have no weight (0 or negative: it gets no keys) as long as one has
+	// (cache.New ends the process on a configuration without any weight)
+	total := 0
+	for _, w := range c.Weights {
+		if w > 0 {
+			total += w
+		}
+	}
+	if total <= 0 || (n == 1 && c.Weights[0] <= 0) {
+		return kit.Verdict{Excluded: true}
+	}
+	for _, o := range c.Ops {
+		if o.K == "fault" && strings.HasPrefix(o.Mode, "rst") && !c.clusterType() {
+			// connection resets make the client back off for up to 88 ms of virtual
+			// time per failed call: keep every operation clear of the wheel's ticks
+			c.OffMs = 150 + c.OffMs%450
+			r.c = c
+			break
+		}
+	}
 	for _, in := range c.Insts {
 		if (in.HasE && in.ENs == 0 && in.E < 1) || (in.HasNF && in.NFNs == 0 && in.NF < 1) {
 			return kit.Verdict{Excluded: true}
@@ -1475,7 +1849,7 @@ func c06HistInterp(t *testing.T, c hCase) (v kit.Verdict) {
 			for _, cancel := range r.cancels {
 				cancel()
 			}
-			if c.Ctor == "ctype" {
+			if c.clusterType() {
 				// the cluster client reloads its slot table in a goroutine that
 				// ends with a 200 ms sleep
 				time.Sleep(time.Second)
@@ -1490,9 +1864,21 @@ func c06HistInterp(t *testing.T, c hCase) (v kit.Verdict) {
 		// is overwritten, so cases stay independent
 		_ = sqlc.NewNodeConn(nil, redis.New(r.srvs[0].M.Addr()), cache.WithExpire(7*24*time.Hour), cache.WithNotFoundExpire(time.Minute))
 		var conf cache.Config
-		for i, w := range c.Weights {
-			conf = append(conf, cache.NodeConfig{Config: redis.Config{Host: r.srvs[i].M.Addr(), Type: redis.NodeType}, Weight: w})
+		rtype := redis.NodeType
+		if c.clusterType() {
+			rtype = redis.ClusterType
+			r.classes["redis-cluster-type"] = true
+			if n > 1 {
+				r.classes["redis-cluster-type-several-cache-nodes"] = true
+			}
 		}
+		for i, w := range c.Weights {
+			conf = append(conf, cache.NodeConfig{Config: redis.Config{Host: r.srvs[i].M.Addr(), Type: rtype}, Weight: w})
+			if w <= 0 {
+				r.classes["cluster-node-without-weight"] = true
+			}
+		}
+		flights := syncx.NewSingleFlight() // of the instances the caller builds from cache.New / cache.NewNode
 		var lastRds *redis.Redis
 		for ii, in := range c.Insts {
 			var opts []cache.Option
@@ -1520,12 +1906,20 @@ func c06HistInterp(t *testing.T, c hCase) (v kit.Verdict) {
 				} else {
 					r.classes["instances-share-redis-object"] = true
 				}
-				if c.Ctor == "ctype" {
-					r.classes["redis-cluster-type"] = true
+				if in.Direct {
+					cch := cache.NewNode(lastRds, flights, cache.C06Stat, sql.ErrNoRows, opts...)
+					r.ccs, r.direct = append(r.ccs, sqlc.NewConnWithCache(nil, cch)), append(r.direct, cch)
+				} else {
+					r.ccs, r.direct = append(r.ccs, sqlc.NewNodeConn(nil, lastRds, opts...)), append(r.direct, nil)
 				}
-				r.ccs = append(r.ccs, sqlc.NewNodeConn(nil, lastRds, opts...))
+			} else if in.Direct {
+				cch := cache.New(conf, flights, cache.C06Stat, sql.ErrNoRows, opts...)
+				r.ccs, r.direct = append(r.ccs, sqlc.NewConnWithCache(nil, cch)), append(r.direct, cch)
 			} else {
-				r.ccs = append(r.ccs, sqlc.NewConn(nil, conf, opts...))
+				r.ccs, r.direct = append(r.ccs, sqlc.NewConn(nil, conf, opts...)), append(r.direct, nil)
+			}
+			if in.Direct {
+				r.classes["instance-from-cache-New"] = true
 			}
 		}
 		if len(c.Insts) > 1 {
@@ -1550,7 +1944,7 @@ func c06HistInterp(t *testing.T, c hCase) (v kit.Verdict) {
 				// an operation issues at most 2 failing commands per node (cluster-type
 				// redis deletes key by key: up to 3 keys and the read inside Exec)
 				worst := 2
-				if c.Ctor == "ctype" {
+				if c.clusterType() {
 					worst = 4
 				}
 				r.budget(func(int) int { return worst })
@@ -1561,6 +1955,11 @@ func c06HistInterp(t *testing.T, c hCase) (v kit.Verdict) {
 				after = r.withCtx(o.Cx, false)
 			case "write", "delrow", "delcache", "setcache":
 				after = r.withCtx(o.Cx, true)
+			case "getcache":
+				after = r.withCtx(o.Cx, false)
+			}
+			if r.direct[r.cur] != nil && r.ctx == nil {
+				r.classes["direct-cache-api"] = true
 			}
 			switch o.K {
 			case "read":
@@ -1603,6 +2002,10 @@ func c06HistInterp(t *testing.T, c hCase) (v kit.Verdict) {
 				r.doDelCache(what, o)
 			case "setcache":
 				r.doSetCache(what, o)
+			case "getcache":
+				r.doGetCache(what, o)
+			case "cwrite":
+				r.doCWrite(what, o)
 			case "adv":
 				r.doAdv(what, o.D)
 			case "conc":
@@ -1610,11 +2013,18 @@ func c06HistInterp(t *testing.T, c hCase) (v kit.Verdict) {
 				r.doConc(what, o)
 			case "fault":
 				if o.Node >= 0 && o.Node < n {
-					switch o.Mode {
-					case "", "down", "get", "set", "del":
-						r.srvs[o.Node].SetFault(o.Mode, o.Filt)
-						if o.Mode != "" {
-							r.classes["fault-"+o.Mode] = true
+					mode := o.Mode
+					if c.clusterType() {
+						// the cluster client reacts to a lost connection by re-reading the
+						// slot table and marking nodes as failing (its own clock and
+						// goroutines): error replies only
+						mode = strings.TrimPrefix(strings.TrimPrefix(mode, "rst1"), "rst")
+					}
+					switch mode {
+					case "", "down", "get", "set", "del", "rstdown", "rstget", "rstset", "rstdel", "rst1down", "rst1get", "rst1set", "rst1del":
+						r.srvs[o.Node].SetFault(mode, o.Filt)
+						if mode != "" {
+							r.classes["fault-"+mode] = true
 						}
 					}
 				}
@@ -1622,6 +2032,11 @@ func c06HistInterp(t *testing.T, c hCase) (v kit.Verdict) {
 			after()
 			r.stall()
 			r.ctx, r.opLimit, r.ctxPre, r.ctxMid = nil, 2e9, false, false
+			if r.fail != "" {
+				return
+			}
+			r.realign(what)
+			r.stall()
 			if r.fail != "" {
 				return
 			}
@@ -1701,7 +2116,7 @@ func c06HistGen(rt *rapid.T) hCase {
 	c := hCase{
 		Salt:   rapid.IntRange(0, 999).Draw(rt, "salt"),
 		OffMs:  rapid.IntRange(1, 998).Draw(rt, "off"),
-		Ctor:   rapid.SampledFrom([]string{"node", "conf", "ctype"}).Draw(rt, "ctor"),
+		Ctor:   rapid.SampledFrom([]string{"node", "conf", "ctype", "node", "conf", "ctype", "cconf"}).Draw(rt, "ctor"),
 	}
 	// primary key VALUES are part of the case: small, around 2^21 (where %v of a
 	// float64 switches to exponent form), around 2^53, near the int64 limits,
@@ -1739,6 +2154,7 @@ func c06HistGen(rt *rapid.T) hCase {
 		if i > 0 {
 			in.Share = rapid.IntRange(0, 2).Draw(rt, "sharerds") == 0
 		}
+		in.Direct = rapid.IntRange(0, 4).Draw(rt, "direct") == 0
 		c.Insts = append(c.Insts, in)
 	}
 	// names of the index values inside their cache keys: format verbs, glob / regexp
@@ -1752,6 +2168,10 @@ func c06HistGen(rt *rapid.T) hCase {
 	nn := rapid.SampledFrom([]int{1, 1, 2, 3}).Draw(rt, "nodes")
 	for i := 0; i < nn; i++ {
 		c.Weights = append(c.Weights, rapid.SampledFrom([]int{10, 50, 100}).Draw(rt, "weight"))
+	}
+	if nn > 1 && rapid.IntRange(0, 7).Draw(rt, "weightless") == 0 {
+		// a configured node without weight (it gets no keys)
+		c.Weights[rapid.IntRange(0, nn-1).Draw(rt, "weightlessnode")] = rapid.SampledFrom([]int{0, -5}).Draw(rt, "noweight")
 	}
 	advs := []int{1, 1, 1, 2, 4, 5, 6, 60, 66, 300, 3600}
 	for _, in := range c.Insts {
@@ -1781,7 +2201,7 @@ func c06HistGen(rt *rapid.T) hCase {
 		return f
 	}
 	kinds := []string{"read", "read", "read", "read", "readidx", "readidx", "readidx", "write", "write", "write", "write",
-		"delrow", "delcache", "setcache", "adv", "adv", "adv", "conc", "fault", "fault", "idxstale", "garbage", "gmiss"}
+		"delrow", "delcache", "setcache", "adv", "adv", "adv", "conc", "fault", "fault", "idxstale", "garbage", "gmiss", "getcache", "cwrite"}
 	nops := rapid.IntRange(5, 40).Draw(rt, "nops")
 	faulty := false
 	churnAt := -1
@@ -1819,7 +2239,7 @@ func c06HistGen(rt *rapid.T) hCase {
 			o.In = rapid.IntRange(0, ni-1).Draw(rt, "instance")
 		}
 		switch k {
-		case "read", "readidx", "write", "delrow", "delcache", "setcache", "idxstale":
+		case "read", "readidx", "write", "delrow", "delcache", "setcache", "idxstale", "getcache":
 			o.Cx = rapid.SampledFrom([]string{"", "", "", "bg", "live", "cancel", "cancel", "dl", "pre", "mid"}).Draw(rt, "ctx")
 		}
 		if k == "read" && rapid.IntRange(0, 5).Draw(rt, "callback") == 0 {
@@ -1846,6 +2266,10 @@ func c06HistGen(rt *rapid.T) hCase {
 				o.NoIdx = rapid.Bool().Draw(rt, "noidx")
 			} else {
 				o.Idx = rapid.SampledFrom(free).Draw(rt, "idx")
+			}
+			if rapid.IntRange(0, 11).Draw(rt, "stmtfails") == 0 {
+				o.XF = true // the statement fails: the database (and the generator's picture of it) stays as it is
+				break
 			}
 			o.During = rapid.IntRange(0, 3).Draw(rt, "during") == 0
 			o.Pay = rapid.IntRange(0, 349).Draw(rt, "payload")
@@ -1899,8 +2323,26 @@ func c06HistGen(rt *rapid.T) hCase {
 			o.ID = rapid.SampledFrom(ids).Draw(rt, "id")
 			o.During = rapid.IntRange(0, 3).Draw(rt, "during") == 0
 			delete(rows, o.ID)
-		case "delcache", "setcache":
+		case "cwrite":
+			ids := existing()
+			if len(ids) == 0 {
+				continue
+			}
+			nw := rapid.IntRange(2, 5).Draw(rt, "writers")
+			for j := 0; j < nw; j++ {
+				w := hW{ID: rapid.SampledFrom(ids).Draw(rt, "id"), Off: rapid.SampledFrom([]int{0, 0, 0, 1, 50, 200, 449}).Draw(rt, "woff"),
+					Lat: rapid.SampledFrom([]int{0, 1, 1, 50, 200, 399}).Draw(rt, "wlat"), Pay: rapid.IntRange(0, 349).Draw(rt, "payload"),
+					NoIdx: rapid.IntRange(0, 3).Draw(rt, "noidx") == 0, DelOnly: rapid.IntRange(0, 4).Draw(rt, "delonly") == 0}
+				if ni > 1 {
+					w.In = rapid.IntRange(0, ni-1).Draw(rt, "instance")
+				}
+				o.Ws = append(o.Ws, w)
+			}
+		case "delcache", "setcache", "getcache":
 			nk := rapid.IntRange(1, 3).Draw(rt, "nkeys")
+			if k == "setcache" && rapid.IntRange(0, 9).Draw(rt, "badvalue") == 0 {
+				o.Bad = true
+			}
 			if k == "delcache" {
 				switch rapid.IntRange(0, 23).Draw(rt, "shape") {
 				case 0, 1:
@@ -1946,7 +2388,8 @@ func c06HistGen(rt *rapid.T) hCase {
 			if faulty && rapid.Bool().Draw(rt, "recover") {
 				o.Mode = ""
 			} else {
-				o.Mode = rapid.SampledFrom([]string{"down", "get", "set", "set", "del", "del", "del"}).Draw(rt, "mode")
+				o.Mode = rapid.SampledFrom([]string{"down", "get", "set", "set", "del", "del", "del",
+					"rstdown", "rstget", "rstset", "rstdel", "rstdel", "rst1down", "rst1get", "rst1del"}).Draw(rt, "mode")
 				o.Filt = rapid.SampledFrom([]string{"", "", "p", "i"}).Draw(rt, "filt")
 			}
 			faulty = o.Mode != ""
@@ -1957,6 +2400,6 @@ func c06HistGen(rt *rapid.T) hCase {
 }
 
 func TestVerif_C06_history(t *testing.T) {
-	kit.Run(t, "C06", "history", kit.Opts{Quick: 2000, Thorough: 160000}, c06HistGen,
+	kit.Run(t, "C06", "history", kit.Opts{Quick: 1800, Thorough: 160000}, c06HistGen,
 		func(c hCase) kit.Verdict { return c06HistInterp(t, c) })
 }
